@@ -47,6 +47,13 @@ def classify_path(toks, path, ps, observed):
         cands += [(('A', 'D'), 'KF-NEGGROUP-DOT-UNGUARDS-DOTDIR'), (('A', 'B', 'D'), 'KF-NEGGROUP-DOT-UNGUARDS-DOTDIR')]
     if path.endswith('\n'):
         cands = [(('NL',), 'KF-DOLLAR-NEWLINE')] + cands
+    try:
+        base = R.path_match3(toks, path, ps)
+    except RecursionError:
+        base = None
+    if base is None or base == observed:
+        # not a disagreement with the pure-text model: the defect models have nothing to explain
+        return None
     for q, fid in cands:
         try:
             if R.path_match3(toks, path, ps, quirks=frozenset(q)) in (observed, None):
